@@ -394,15 +394,15 @@ func c16ReadCorpus(out *vlib.Out) {
 	c16Pad(c, []int{7})
 	c16RunReadCase(out, c, true)
 	out.Count("corpus:data-equals-heartbeat")
-	// data queued, then the stream ends: everything must still arrive
-	for rep := 0; rep < 40; rep++ {
-		c = &c16ReadCase{hbMode: true, maxMsg: 64, hb: hb, items: []c16Item{{[]byte("AAAA"), "-", false}, {hb, "-", true}, {[]byte("BBBB"), "-", false}}}
+	// data that comes together with the error
+	for _, mode := range []bool{true, true, true, false} {
+		c = &c16ReadCase{hbMode: mode, maxMsg: 64, hb: hb, items: []c16Item{{[]byte("AAAA"), "-", false}, {[]byte("BBBB"), "other", false}, {[]byte("CC"), "-", false}}}
 		c16Pad(c, []int{3})
 		c16RunReadCase(out, c, true)
 	}
-	// data that comes together with the error
-	for _, mode := range []bool{false, true} {
-		c = &c16ReadCase{hbMode: mode, maxMsg: 64, hb: hb, items: []c16Item{{[]byte("AAAA"), "-", false}, {[]byte("BBBB"), "other", false}, {[]byte("CC"), "-", false}}}
+	// data queued, then the stream ends: everything must still arrive
+	for rep := 0; rep < 30; rep++ {
+		c = &c16ReadCase{hbMode: true, maxMsg: 64, hb: hb, items: []c16Item{{[]byte("AAAA"), "-", false}, {hb, "-", true}, {[]byte("BBBB"), "-", false}}}
 		c16Pad(c, []int{3})
 		c16RunReadCase(out, c, true)
 	}
